@@ -9,7 +9,7 @@ TRUST = ("Trusted base: the go/ssa translation and the symbolic executor of /ver
          "preconditions stated in the contracts (bus created by New, non-nil context, callbacks other than handlers do not panic).")
 
 CLAIMS = {
- "C01": ("Registry contracts: every registry operation (Subscribe, SubscribeContext, Unsubscribe, Clear, ClearAll, HasHandlers, HandlerCount, the Once-removal section of PublishContext) is one critical section on the shard selected by shardIdx(typeOf(T)) whose effect on the abstract registry (map type -> sequence of registrations) is stated as a whole-view postcondition with frame; the shard lock invariant keeps every list typed by its key; PublishContext snapshots the list into a fresh array under the read lock and its dispatch loop delivers each snapshot element at most once, in index order, with the published value. Proved for every registry state, handler list and iteration count. Partial: 'first match is removed and order of the rest is kept' for Unsubscribe is a quantified postcondition; order preservation of the Once-removal loop is covered only by length/frame/typed invariants (stated in DESIGN.md).", "5 C01"),
+ "C01": ("Registry contracts: every registry operation (Subscribe, SubscribeContext, Unsubscribe, Clear, ClearAll, HasHandlers, HandlerCount, the Once-removal section of PublishContext) is one critical section on the shard selected by shardIdx(typeOf(T)) whose effect on the abstract registry (map type -> sequence of registrations) is stated as a whole-view postcondition with frame; the shard lock invariant keeps every list typed by its key; PublishContext snapshots the list into a fresh array under the read lock and its dispatch loop delivers each snapshot element at most once, in index order, with the published value. Proved for every registry state, handler list and iteration count. Unsubscribe removes exactly the first matching registration and keeps the order of the rest (quantified postcondition); the Once-retirement section of PublishContext removes exactly the fired Once handlers - every other registration is kept, nothing is added and the relative order is unchanged (ghost position maps kept by the contract's loop ghost state); registrations of one type are pairwise distinct (lock invariant).", "5 C01"),
  "C02": ("Linearizability argument by contracts: each registry operation takes the shard lock exactly once (cs.single), its critical-section contract is its sequential specification, the handler record is immutable after publication (immutability scan) and delivery is at most once per snapshot element; with M1-M3 (lock-protected sections are atomic, lock invariants) this gives the stated bounds for every interleaving. The composition step itself (M7) is a trusted meta-theorem, not a discharged obligation.", "5 C02"),
  "C03": ("For the root, state and stores/sqlite packages. Data races: every read/write of a lock-guarded field (and of the maps/slices reached through it) is an obligation 'lock held in the right mode' on every function under contract, a package scan demands that every function touching a mutex or guarded field IS under contract (closed world), and further scans demand that every field written after construction is lock-guarded, atomic (CAS 0->1 only) or immutable-after-construction; with M1 (mutex happens-before) that excludes data races on ebu's own state. Deadlocks: locks are taken in level order, released on every path including panics, never held across a loop iteration boundary, and every user callback is invoked with no ebu lock held - except the Sequential handler mutex, which is the recorded known finding (two Sequential handlers publishing to each other deadlock). Not covered: the durablestream and otel modules, blocking on channels/WaitGroups (a handler that calls Wait on its own bus), configuration setters (excluded by the statement).", "5 C03"),
  "C04": ("Once claim/dispatch contracts of PublishContext (per-iteration), its goroutine literal, the atomic-field scan (executed only ever CAS 0->1) and the immutability scan, discharged for all inputs and iteration counts; all schedules through M5 (CAS linearizable).", "5 C04"),
